@@ -15,13 +15,14 @@ DEMO_DST=$(grep -oE '[a-z0-9-]+/tests/[A-Za-z0-9_]+\.rs' $OUT/demo_path.txt | he
 DEMO_SRC=$(ls $OUT/*.rs | head -1)
 CRATE=$(echo $DEMO_DST | cut -d/ -f1)
 TNAME=$(basename $DEMO_DST .rs)
+FEAT=""; [ -f $OUT/demo_features.txt ] && FEAT="--features $(cat $OUT/demo_features.txt)"
 mkdir -p $(dirname $DEMO_DST) && cp $DEMO_SRC $DEMO_DST
 echo "== demo WITH the patch ($CRATE --test $TNAME)"
-cargo test -p $CRATE --offline --test $TNAME 2>&1 | grep -E "^test result|panicked|error(\[|:)" | head -5
+cargo test -p $CRATE --offline $FEAT --test $TNAME 2>&1 | grep -E "^test result|panicked|error(\[|:)" | head -5
 WITH_RC=${PIPESTATUS[0]}
 git apply -R $OUT/patch.diff
 echo "== demo WITHOUT the patch"
-cargo test -p $CRATE --offline --test $TNAME 2>&1 | grep -E "^test result|panicked|error(\[|:)" | head -5
+cargo test -p $CRATE --offline $FEAT --test $TNAME 2>&1 | grep -E "^test result|panicked|error(\[|:)" | head -5
 WITHOUT_RC=${PIPESTATUS[0]}
 git checkout -q -- . && git clean -fdq -e target
 echo "SUMMARY suite_rc=$SUITE_RC demo_with_rc=$WITH_RC demo_without_rc=$WITHOUT_RC demo=$DEMO_DST"
